@@ -74,7 +74,7 @@ def chains(tier, rnd):
     out = []
     n = 260 if tier == "quick" else 4000
     for i in range(n):
-        shape = rnd.choice(["linear2", "linear3", "linear4", "diamond", "fanin", "rewrite", "star_unknown"])
+        shape = rnd.choice(["linear2", "linear3", "linear4", "diamond", "fanin", "rewrite", "star_unknown", "publish_then_reload"])
         tables = {}  # table -> {col: set of (base table, base col)}
         stmts = []
         expect_star = []  # (statement index, target, source table, expected expanded columns)
@@ -139,6 +139,12 @@ def chains(tier, rnd):
             tables["db.m1"] = {"*": {("ext.events", "*")}}
             stmts.append(rnd.choice(["insert into db.m1 select * from ext.events", "create table db.m1 as select * from ext.events"]))
             derive("db.fin", "db.m1", "star")
+        elif shape == "publish_then_reload":
+            # a table is read by star while nothing is known about it yet, and (re)loaded by two statements afterwards
+            tables["db.fin"] = {"*": {("db.m1", "*")}}
+            stmts.append("insert into db.fin select * from db.m1")
+            base_select("db.m1", "db.s1", cols1, "same")
+            stmts.append(f"insert into db.m1 select y.{MD['db.s2'][0]} as {cols1[0]} from db.s2 y")
         elif shape == "diamond":
             base_select("db.m1", "db.s1", cols1, "same")
             derive("db.m2", "db.m1", rnd.choice(["star", "some"]))
@@ -186,7 +192,7 @@ def run(tier):
                 # (only for a table the script creates with CREATE TABLE AS / CREATE VIEW: an INSERT without column list into a table the provider
                 # knows is legitimately named by the catalog's columns, C13)
                 # (nor for a table rebuilt as a star copy of unknown columns: what it then consists of is not decided by the script)
-                if g["shape"] in ("same_unresolved_name_two_scopes", "rewrite", "star_unknown") or "db.m1" not in g["tables"]:
+                if g["shape"] in ("same_unresolved_name_two_scopes", "rewrite", "star_unknown", "publish_then_reload") or "db.m1" not in g["tables"]:
                     continue
                 c["sql"] = c["sql"].replace("insert into db.m1 select x.", "create table db.m1 as select x.", 1)
                 c.update({"metadata": dict(MD, **{"db.m1": ["old1", "old2", "c1"]}), "provider": "dummy"})
